@@ -40,6 +40,10 @@ def shrink(self, antimask):
     if Qube.is_one_true(antimask):
         return self
 
+    # The antimask must be compatible with this object's shape, however the
+    # mask of this object happens to be stored
+    Qube.broadcasted_shape(self._shape_, np.shape(antimask))
+
     # If the antimask is a single False value, or if this object is already
     # entirely masked, return a single masked value
     if (Qube.is_one_true(self._mask_) or Qube.is_one_false(antimask) or
